@@ -12,8 +12,8 @@ CONF = {
                 quick=dict(cfg="MCAttest_06", bits=[1024, 2048, 3072], nflip=40),
                 thorough=dict(cfg="MCAttest_06t", bits=[1024, 1536, 2048, 3072, 4096], nflip=400)),
     "C16": dict(test="TestVerifAttest16", fml="TC16", strict="Strict16",
-                quick=dict(cfg="MCAttest_16", mutperpos=2, truncstep=3, mintevery=7, nrandmh=3000),
-                thorough=dict(cfg="MCAttest_16", mutperpos=8, truncstep=1, mintevery=1, nrandmh=60000)),
+                quick=dict(cfg="MCAttest_16", mutperpos=2, truncstep=3, mintevery=7, nrandmh=3000, reps=1),
+                thorough=dict(cfg="MCAttest_16", mutperpos=16, truncstep=1, mintevery=1, nrandmh=60000, reps=4)),
 }
 CHUNK = 80000
 
@@ -103,7 +103,7 @@ def run(prop, tier):
     if prop == "C06":
         plan = {"c06": {"cases": cases, "bits": tc["bits"], "nflip": tc["nflip"], "workers": 4}}
     else:
-        plan = {"c16": {"cases": cases, "mutperpos": tc["mutperpos"], "truncstep": tc["truncstep"], "mintevery": tc["mintevery"], "nrandmh": tc["nrandmh"]}}
+        plan = {"c16": {"cases": cases, "mutperpos": tc["mutperpos"], "truncstep": tc["truncstep"], "mintevery": tc["mintevery"], "nrandmh": tc["nrandmh"], "reps": tc["reps"]}}
     meta = {"tier": tier, "seed": vlib.seed(), "plan": {k: v for k, v in list(plan.values())[0].items() if k != "cases"}}
     with open(planp, "w") as f:
         json.dump(plan, f)
@@ -126,7 +126,7 @@ def run(prop, tier):
         if summ["std_rejected_conforming"] > 0:
             raise NoVerdict("crypto/x509 refused %d certificates minted by crypto/x509 (harness problem)" % summ["std_rejected_conforming"])
         byop = collections.Counter(x["c"]["op"] for x in cases)
-        if summ["parse"] != byop["parse"] or summ["pem"] < byop["pem"] or summ["modhex"] < byop["modhex"] or summ["mut"] == 0:
+        if summ["parse"] != byop["parse"] * tc["reps"] or summ["pem"] < byop["pem"] or summ["modhex"] < byop["modhex"] or summ["mut"] == 0:
             raise NoVerdict("not every exported case was executed: %s vs %s" % (json.dumps(summ), dict(byop)))
         agree = sum(1 for x in steps if x["e"]["op"] == "parse" and x["e"]["res"]["yok"] and len(x["e"]["res"]["eq"]) == 11)
         if agree == 0:
